@@ -37,3 +37,11 @@ for _g in _reg_C11.GROUPS:
     if _g['name'] == 'encode_native_decisions_fs48000':
         _h = _copy.deepcopy(_g); _h.pop('prop', None); _h['focus'] = ['sample precision', 'silence detector uses']; _h['what'] = 'LSB depth: the precision used is min(entry point width, OPUS_SET_LSB_DEPTH), identical for the integer and float entry points (decision chain of opus_encode_native)'
         GROUPS.append(_h)
+
+# shared with C10 (same TU, same harness): the 16-bit output of the multistream decoder is the float output converted as the stand-alone
+# decoder does (saturating); only that assertion is C13's, the routing assertions are decided under C10
+from proofs import reg_C10 as _reg_C10
+for _g in _reg_C10.GROUPS:
+    if _g['name'] == 'ms_routing_c3s2p1n2':
+        _h = _copy.deepcopy(_g); _h.pop('prop', None); _h['focus'] = ['16-bit output']; _h['what'] = 'multistream decoder 16-bit output = float output scaled, rounded and saturated, per mapped stream'
+        GROUPS.append(_h)
